@@ -135,8 +135,15 @@ size_t RequestParser::parse(const void *data_ptr, size_t data_size)
             auto head_value = util::string::Strip(str.substr(head_value_start_pos, head_value_end_pos - head_value_start_pos));
             sp_request_->headers[head_key] = head_value;
 
-            if (head_key == "Content-Length")
-                content_length_ = std::stoi(head_value);
+            if (head_key == "Content-Length") {
+                //! 只接受十进制数字，std::stoi() 遇到非法值会抛异常
+                if (head_value.empty() || head_value.size() > 18 ||
+                    head_value.find_first_not_of("0123456789") != std::string::npos) {
+                    state_ = State::kFail;
+                    return pos;
+                }
+                content_length_ = std::stoull(head_value);
+            }
 
             pos = end_pos + 2;
         }
